@@ -1355,6 +1355,11 @@ func (n *RegexNode) Format(buf *bytes.Buffer, indent string, onNewLine bool) {
 	}
 	writeIndent(buf, indent, onNewLine)
 	buf.WriteByte('/')
+	if n.Literal == "" && n.Regex != nil {
+		// The node was not created by the parser (JSON, variable substitution),
+		// derive the literal from the regex, slashes are escaped in a literal.
+		buf.WriteString(strings.Replace(n.Regex.String(), "/", "\\/", -1))
+	}
 	buf.WriteString(n.Literal)
 	buf.WriteByte('/')
 }
